@@ -6,7 +6,10 @@ from .. import impl
 from .. import recog
 
 CFG = gen.with_cfg(control=frozenset(['cut', ';', 'ite', '->', 'not']), meta=True, library=True, max_clauses=5, min_clauses=1)
-FOREIGN = ['"', '#', '$', 'é', '\x00', '&', '~', '`', '{', '}', '^', '*', '?', '@', '\\', ':', "'", '%', '/', '|', ' ', 'λ']
+FOREIGN = ['"', '#', '$', 'é', '\x00', '&', '~', '`', '{', '}', '^', '*', '?', '@', '\\', ':', "'", '%', '/', '|', ' ', 'λ',
+           # compatibility characters whose NFKC form IS in the lexicon (space, brackets, full stop, letters, digits)
+           '\u00a0', '\u3000', '\u2003', '\uff08', '\uff09', '\uff0e', '\uff0c', '\ufb01', '\u00b2', '\uff41', '\uff21', '\u2460',
+           '\u200b', '\ufeff', '\u2028']
 ALPHABET = ['foo', 'X', '_', '(', ')', ',', '.', ':-', ';', '->', '\\+', '[', ']', '|', "'", 'a b', '=', '\\=', '-', '+', '/', '1',
             'true', 'fail', '!', ' ', '\n', '%', '"', 'é', '#', "'q'", '<', '=<', '\\', ':', '$', 'p(a).', ':- d.', "'x\\'y'", '% c\n']
 JUNK = [')', 'garbage', "'unterminated", '"str".', '.', ',', 'foo(', 'é', ':-', 'x :-', '% no newline', ']', '|', 'a b.', '(', 'X', '1', ';', '->', 'p(a)']
